@@ -115,7 +115,7 @@ def run_case(case):
             res["tags"].append("cli-lane")
             if built is None:
                 out = cli_info["output"]
-                if any(k in out for k in ("OverflowError", "does not fit in format", "format requires", "doesn't look like a path")):
+                if rc.cli_refusal(out) or "doesn't look like a path" in out:
                     res["counters"]["build_refused_overflow"] = 1
                     return res
                 res["violations"].append({"what": f"CLI build failed (exit {cli_info['rc']}) on valid input", "output": out, "config": cfg})
